@@ -363,6 +363,9 @@ var c19Readers = []string{"csv-header:A", "csv-header:B", "csv-header:S", "csv-h
 func (c19) Gen(rng *rand.Rand, tier string, k int) *Case {
 	c := &Case{Family: "ext", Entity: c19Readers[rng.Intn(len(c19Readers))]}
 	n := rng.Intn(6)
+	if rng.Intn(15) == 0 {
+		n = 70 + rng.Intn(150) // more records than any read-ahead buffer: a fault early in a long document
+	}
 	var doc []byte
 	switch c.Entity {
 	case "json":
